@@ -11,14 +11,14 @@ import (
 )
 
 type vfSrvCfg struct {
-	Kind            string // "os" | "rs"
-	Alloc           bool
-	ReadOnly        bool   `json:",omitempty"`
-	CloseKeepsRead  bool   `json:",omitempty"` // transport: Close only closes the write side, queued bytes stay readable
-	Chunk           int    `json:",omitempty"` // bytes per Read on the server's side (0 = all)
-	MaxTx           uint32 `json:",omitempty"`
-	StartDir        string `json:",omitempty"`
-	HOpts           vfHOpts
+	Kind           string // "os" | "rs"
+	Alloc          bool
+	ReadOnly       bool   `json:",omitempty"`
+	CloseKeepsRead bool   `json:",omitempty"` // transport: Close only closes the write side, queued bytes stay readable
+	Chunk          int    `json:",omitempty"` // bytes per Read on the server's side (0 = all)
+	MaxTx          uint32 `json:",omitempty"`
+	StartDir       string `json:",omitempty"`
+	HOpts          vfHOpts
 }
 
 type vfSrv struct {
